@@ -560,6 +560,8 @@ WITNESS_HP = [   # the refutation witnesses of Properties/C06.v on real zones, a
     {"zone": "US/Pacific", "start": None, "date": "2023-03-10", "ndays": 5, "with_obs": True},
     {"zone": "US/Pacific", "start": None, "date": "2023-11-03", "ndays": 5, "with_obs": True},
     {"zone": "Australia/Sydney", "start": None, "date": "2021-10-01", "ndays": 5, "with_obs": True},
+    {"zone": "Antarctica/Casey", "start": None, "date": "2010-03-02", "ndays": 5, "with_obs": True},     # a date visited twice
+    {"zone": "Pacific/Apia", "start": None, "date": "2011-12-28", "ndays": 5, "with_obs": True},         # a date skipped
 ]
 
 
